@@ -17,6 +17,16 @@ pub fn st(ns: u64) -> SystemTime {
     UNIX_EPOCH + Duration::from_nanos(ns)
 }
 
+/// durations of the op lines are nanoseconds in a u64; the largest value stands for `Duration::MAX`
+/// (the model sees 2^64-1 ns: both are longer than any interval of the virtual clock)
+pub fn dur(ns: u64) -> Duration {
+    if ns == u64::MAX {
+        Duration::MAX
+    } else {
+        Duration::from_nanos(ns)
+    }
+}
+
 /// the one floating point computation of the scheduler, recomputed with the same std call
 pub fn div_tick(dur_ns: u64, n: u64) -> u64 {
     Duration::from_nanos(dur_ns).div_f64(n as f64).as_nanos() as u64
@@ -288,8 +298,8 @@ impl SchedEngine {
             _ => return "bad-op".into(),
         };
         let car = match t[2] {
-            "d" => CarouselRepeatMode::DelayBetweenTransfers(Duration::from_nanos(n[0])),
-            "i" => CarouselRepeatMode::IntervalBetweenStartTimes(Duration::from_nanos(n[0])),
+            "d" => CarouselRepeatMode::DelayBetweenTransfers(dur(n[0])),
+            "i" => CarouselRepeatMode::IntervalBetweenStartTimes(dur(n[0])),
             _ => return "bad-op".into(),
         };
         let mut queues = BTreeMap::new();
@@ -300,7 +310,7 @@ impl SchedEngine {
         }
         let fits = n[5] == 1;
         let config = Config {
-            fdt_duration: Duration::from_nanos(n[1]),
+            fdt_duration: dur(n[1]),
             fdt_carousel_mode: car,
             fdt_start_id: n[2] as u32,
             fdt_publish_mode: if full { FDTPublishMode::FullFDT } else { FDTPublishMode::ObjectsBeingTransferred },
@@ -327,10 +337,17 @@ impl SchedEngine {
     }
 
     fn exec_add(&mut self, t: &[&str]) -> String {
-        // add <prio> <nSym> <maxCount> <n|d|i> <carNs> <-|startNs> <n|f|d|t> <targetNs> <0|1> <E> <B> <rem>
-        if t.len() != 13 {
+        // add <prio> <nSym> <maxCount> <n|d|i> <carNs> <-|startNs> <n|f|d|t> <targetNs> <0|1> <E> <B> <rem> [x<expiresNs>]
+        if t.len() != 13 && t.len() != 14 {
             return "bad-op".into();
         }
+        let cache_control = match t.get(13) {
+            None => None,
+            Some(x) => match x.strip_prefix('x').and_then(|v| v.parse::<u64>().ok()) {
+                Some(v) => Some(flute::sender::CacheControl::Expires(dur(v))),
+                None => return "bad-op".into(),
+            },
+        };
         let p = |i: usize| t[i].parse::<u64>().ok();
         let (prio, n_sym, maxc, card, td, al, e, bl, rem) =
             match (p(1), p(2), p(3), p(5), p(8), p(9), p(10), p(11), p(12)) {
@@ -372,9 +389,9 @@ impl SchedEngine {
             max_transfer_count: maxc as u32,
             carousel_mode: car.map(|(iv, d)| {
                 if iv {
-                    CarouselRepeatMode::IntervalBetweenStartTimes(Duration::from_nanos(d))
+                    CarouselRepeatMode::IntervalBetweenStartTimes(dur(d))
                 } else {
-                    CarouselRepeatMode::DelayBetweenTransfers(Duration::from_nanos(d))
+                    CarouselRepeatMode::DelayBetweenTransfers(dur(d))
                 }
             }),
             target_acquisition: target.map(|(k, d)| match k {
@@ -387,6 +404,10 @@ impl SchedEngine {
             toi: Some(toi_box),
             allow_immediate_stop_before_first_transfer: if al == 1 { Some(true) } else { None },
             ..Default::default()
+        };
+        let config = match cache_control {
+            Some(cc) => TransferConfig { cache_control: Some(cc), ..config },
+            None => config,
         };
         let url = url::Url::parse(&format!("file:///o{}", toi)).unwrap();
         let obj = match ObjectDesc::create_from_buffer(content, "application/octet-stream", &url, false, config) {
@@ -695,7 +716,9 @@ impl SchedEngine {
                     ob.tdur = *dur;
                     let (tk, dur, n) = (*tk as u128, *dur as u128, ob.n_sym as u128);
                     if !(tk * n <= dur + n && dur <= (tk + 1) * n) {
-                        o.fail("C14:tick-rounding-hypothesis", &format!("div_f64({} ns, {}) = {} ns violates |rounding| <= 1 ns per packet", dur, n, tk));
+                        // f64 carries 53 bits: above 2^53 ns (~104 days) `Duration::div_f64` is not exact to the ns
+                        let class = if dur >= (1u128 << 53) { "C14:tick-rounding-above-2^53" } else { "C14:tick-rounding-hypothesis" };
+                        o.fail(class, &format!("div_f64({} ns, {}) = {} ns: tick * n differs from the target by {} ns, more than 1 ns per packet", dur, n, tk, (tk * n).abs_diff(dur)));
                     }
                     self.ticks_used = true;
                     self.nontrivial.insert("paced");
@@ -948,8 +971,14 @@ impl SchedEngine {
         if let Some(tk) = ob.tick {
             let n = ob.n_sym as u128;
             let lhs = ((now as u128).saturating_sub(ob.t_start as u128)) * n + (idx as u128) * n;
-            if lhs < (idx as u128) * (ob.tdur as u128) {
-                o.fail("C14:pacing-early", &format!("packet {} of {} at start+{} ns, target {} ns over {} packets (tick {})", idx, toi, now.saturating_sub(ob.t_start), ob.tdur, n, tk));
+            let elapsed = (now as u128).saturating_sub(ob.t_start as u128);
+            if elapsed < (idx as u128) * (tk as u128) {
+                o.fail("C14:pacing-early", &format!("packet {} of {} at start+{} ns, before {} ticks of {} ns", idx, toi, elapsed, idx, tk));
+            } else if lhs < (idx as u128) * (ob.tdur as u128) {
+                // on time by the tick the sender computed, early by the literal target / n: only the rounding of
+                // `Duration::div_f64` can do that, and only above 2^53 ns
+                let class = if (ob.tdur as u128) >= (1u128 << 53) { "C14:tick-rounding-above-2^53" } else { "C14:pacing-early" };
+                o.fail(class, &format!("packet {} of {} at start+{} ns, target {} ns over {} packets (tick {})", idx, toi, now.saturating_sub(ob.t_start), ob.tdur, n, tk));
             }
         }
         if let Some(s) = ob.eff_start {
